@@ -506,12 +506,14 @@ class LCA_Database(Index):
 
         self._invalidate_cache()
 
-        max_hash = _get_max_hash_for_scaled(scaled)
+        # the threshold of a sketch built at the new scaled value (what insert()
+        # files for a database created at that scaled); it is inclusive.
+        max_hash = sourmash.MinHash(n=0, ksize=self.ksize, scaled=scaled)._max_hash
 
         # filter out all hashes over max_hash in value.
         new_hashvals = defaultdict(set)
         for k, v in self._hashval_to_idx.items():
-            if k < max_hash:
+            if k <= max_hash:
                 new_hashvals[k] = v
         self._hashval_to_idx = new_hashvals
         self.scaled = scaled
